@@ -122,7 +122,7 @@ def set_polya_requirement_strategy(flag, polya_requirement_strategy):
 
 
 def collect_reads_in_parallel(sample, chr_id, args):
-    current_chr_record = Fasta(args.reference, indexname=args.fai_file_name)[chr_id]
+    current_chr_record = Fasta(args.reference, indexname=args.fai_file_name, gzi_indexname=args.gzi_file_name)[chr_id]
     if args.high_memory:
         current_chr_record = str(current_chr_record)
     read_grouper = create_read_grouper(args, sample, chr_id)
@@ -276,7 +276,7 @@ class BasicReadAssignmentLoader:
 def construct_models_in_parallel(sample, chr_id, dump_filename, args, read_groups):
     logger.info("Processing chromosome " + chr_id)
     construct_models = not args.no_model_construction
-    current_chr_record = Fasta(args.reference, indexname=args.fai_file_name)[chr_id]
+    current_chr_record = Fasta(args.reference, indexname=args.fai_file_name, gzi_indexname=args.gzi_file_name)[chr_id]
     multimapped_reads = defaultdict(list)
     multimap_loader = open(dump_filename + "_multimappers_" + chr_id, "rb")
     list_size = read_int(multimap_loader)
@@ -476,7 +476,16 @@ class ReadAssignmentAggregator:
         self.read_stat_counter.print_start("Read assignment statistics")
 
 
-def load_indexed_reference(reference, fai_file_name):
+def reference_needs_gzi(reference):
+    # the file names pyfaidx takes for BGZF: these need a block index (.gzi) next to the .fai
+    return reference.lower().endswith(('.gz', '.bgz'))
+
+
+def index_missing_or_stale(index_file_name, reference):
+    return not os.path.exists(index_file_name) or os.path.getmtime(index_file_name) < os.path.getmtime(reference)
+
+
+def load_indexed_reference(reference, fai_file_name, gzi_file_name=None):
     # The index of a reference FASTA lives next to it: it is shared by every IsoQuant run that uses this reference,
     # possibly at the same time, and it outlives a killed run. pyfaidx writes a missing or outdated index in place (the
     # file is truncated when it is opened and filled when it is closed): a run - or a worker of a run - that opens the
@@ -484,12 +493,14 @@ def load_indexed_reference(reference, fai_file_name):
     # FASTA file, and either fails with KeyError or silently works with fewer sequences. So the index is built under
     # a name of our own and the complete file is moved into place.
     def missing_or_stale(index_file_name):
-        return not os.path.exists(index_file_name) or os.path.getmtime(index_file_name) < os.path.getmtime(reference)
+        return index_missing_or_stale(index_file_name, reference)
 
     # pyfaidx takes a .gz / .bgz file for BGZF and keeps its block index in <reference>.gzi: it writes that file in place
     # as well, and rebuilds the .fai IN PLACE whenever the .gzi is missing, so both are built under temporary names
-    gzi_file_name = reference + ".gzi"
-    needs_gzi = reference.lower().endswith(('.gz', '.bgz'))
+    # (the .gzi lives next to the reference unless the caller keeps both indices elsewhere: read-only reference folder)
+    if gzi_file_name is None:
+        gzi_file_name = reference + ".gzi"
+    needs_gzi = reference_needs_gzi(reference)
     if missing_or_stale(fai_file_name) or (needs_gzi and missing_or_stale(gzi_file_name)):
         tmp_suffix = ".%s.tmp" % uuid.uuid4().hex
         tmp_fai_file_name = fai_file_name + tmp_suffix
@@ -504,7 +515,7 @@ def load_indexed_reference(reference, fai_file_name):
             for tmp_file_name in (tmp_fai_file_name, tmp_gzi_file_name):
                 if os.path.exists(tmp_file_name):
                     os.remove(tmp_file_name)
-    return Fasta(reference, indexname=fai_file_name)
+    return Fasta(reference, indexname=fai_file_name, gzi_indexname=gzi_file_name)
 
 
 # Class for processing all samples against gene database
@@ -538,18 +549,24 @@ class DatasetProcessor:
 
             # make symlink for pyfaidx index
             args.fai_file_name = self.args.reference + ".fai"
-            fai_missing_or_stale = not os.path.exists(args.fai_file_name) or \
-                os.path.getmtime(args.fai_file_name) < os.path.getmtime(self.args.reference)
+            # the block index of a BGZF reference is (re)built together with the .fai, under a temporary name in the same
+            # folder as well: both indices are kept together, every Fasta() of this run is given both names
+            args.gzi_file_name = self.args.reference + ".gzi"
+            fai_missing_or_stale = index_missing_or_stale(args.fai_file_name, self.args.reference) or \
+                (reference_needs_gzi(self.args.reference) and
+                 index_missing_or_stale(args.gzi_file_name, self.args.reference))
             if fai_missing_or_stale and not os.access(ref_dir, os.W_OK):
                 # index does not exist near the reference (or is older than the reference, so that it has to be rebuilt -
                 # under a temporary name in the same folder, see load_indexed_reference) and reference folder is not writable
                 # store index in the output folder in this case
                 args.fai_file_name = os.path.join(args.output, ref_file_name  + ".fai")
+                args.gzi_file_name = os.path.join(args.output, ref_file_name  + ".gzi")
 
             low_ext = outer_ext.lower()
             if low_ext in ['.gz', '.gzip', '.bgz']:
                 try:
-                    self.reference_record_dict = load_indexed_reference(self.args.reference, args.fai_file_name)
+                    self.reference_record_dict = load_indexed_reference(self.args.reference, args.fai_file_name,
+                                                                        args.gzi_file_name)
                 except UnsupportedCompressionFormat:
                     gunzipped_reference = os.path.join(args.output, ref_name)
                     # always unpack, also when resuming: a file with this name may be the partial copy left by a
@@ -561,9 +578,11 @@ class DatasetProcessor:
                     # the uncompressed copy is private to this run and so is its index: an index next to the shared
                     # .gz file would be older than every fresh copy, i.e. rewritten by every run under the others' feet
                     args.fai_file_name = gunzipped_reference + ".fai"
+                    args.gzi_file_name = None
                     self.reference_record_dict = load_indexed_reference(self.args.reference, args.fai_file_name)
             else:
-                self.reference_record_dict = load_indexed_reference(self.args.reference, args.fai_file_name)
+                self.reference_record_dict = load_indexed_reference(self.args.reference, args.fai_file_name,
+                                                                    args.gzi_file_name)
         else:
             self.reference_record_dict = None
 
